@@ -72,6 +72,15 @@ func VerifBigBinary() {
 		verifAssert(verifBigIs(pz, op, sx, sy), tag+".value")
 	}
 	verifAssert(verifBigInv(pz), tag+".invariant")
+	if pat != "none" {
+		// the same outcome as with distinct objects (C05): the reference is computed from the
+		// operand values taken before the call
+		if op == "quorem" {
+			verifAssert(verifAnd(verifBigIs(pz, "quo", sx, sy), verifBigIs(&r, "rem", sx, sy)), "C05.big."+op+"."+pat+".value")
+		} else {
+			verifAssert(verifBigIs(pz, op, sx, sy), "C05.big."+op+"."+pat+".value")
+		}
+	}
 	sz := verifBigSnap(pz)
 	verifAssert(int64(pz.Sign()) == verifRefScalar("sign", sz, -1), tag+".sign_of_result") // zero is never negative
 	if px != pz {
@@ -119,6 +128,10 @@ func VerifBigUnary() {
 	tag := "C16." + op
 	verifAssert(ret == pz, tag+".returns_receiver")
 	verifAssert(verifBigIs(pz, op, sx, -1), tag+".value")
+	if op == "set" {
+		// (a copy must not keep anything of the destination's previous contents: C06)
+		verifAssert(verifBigIs(pz, op, sx, -1), "C06.big.set.value")
+	}
 	verifAssert(verifBigInv(pz), tag+".invariant")
 	sz := verifBigSnap(pz)
 	verifAssert(int64(pz.Sign()) == verifRefScalar("sign", sz, -1), tag+".sign_of_result")
@@ -176,5 +189,74 @@ func VerifBigScalar() {
 		z.SetUint64(u)
 		verifAssert(verifBigInv(&z), "C16.setuint64.invariant")
 		verifAssert(z.IsUint64() && z.Uint64() == u, "C16.setuint64.value")
+	}
+}
+
+// VerifDecimalB: Decimal-level code on coefficients in ARBITRARY valid representations (Level B:
+// heap-backed small values, dirty inline words) - the states that only arise after a history of
+// operations. param what: cmp, reduce, reduce_inplace, newwithbigint, set.
+func VerifDecimalB() {
+	what := verifParamStr("what")
+	mh := int(verifParamInt("maxheap"))
+	coeff := func(name string, d *Decimal) int {
+		verifBigAny(name, &d.Coeff, mh)
+		s := verifBigSnap(&d.Coeff)
+		verifAssume(verifRefScalar("sign", s, -1) >= 0) // coefficients are non-negative
+		// small values in every representation (in particular heap-backed ones): the subject is
+		// the representation handling of Decimal-level code, not its arithmetic (Level A)
+		verifAssume(verifRefScalar("isuint64", s, -1) == 1 && uint64(verifRefScalar("low64", s, -1)) < 1024)
+		d.Form = Finite
+		d.Negative = verifNondetBool(name + "neg")
+		d.Exponent = int32(verifNondetInt(name+"e", -2, 2))
+		return s
+	}
+	switch what {
+	case "cmp":
+		var x, y Decimal
+		sx, sy := coeff("x", &x), coeff("y", &y)
+		r1 := x.Cmp(&y)
+		r2 := y.Cmp(&x)
+		verifAssert(r1 == -r2, "C15.levelb.cmp.antisym")
+		_ = x.CmpTotal(&y)
+		ok := verifAnd(verifBigUnchanged(&x.Coeff, sx), verifBigUnchanged(&y.Coeff, sy))
+		verifAssert(ok, "C18.dec.cmp.operand_written")
+		verifAssert(ok, "C16.dec.cmp.operand_unchanged")
+	case "reduce", "reduce_inplace":
+		var x, d Decimal
+		sx := coeff("x", &x)
+		if what == "reduce" {
+			verifBigAny("d", &d.Coeff, mh)
+			_, n := d.Reduce(&x)
+			verifAssert(n >= 0, "C04.levelb.reduce.count")
+			verifAssert(verifBigUnchanged(&x.Coeff, sx), "C18.dec.reduce.operand_written")
+			verifAssert(verifBigUnchanged(&x.Coeff, sx), "C16.dec.reduce.operand_unchanged")
+			verifAssert(verifBigInv(&d.Coeff), "C16.dec.reduce.invariant")
+			sd := verifBigSnap(&d.Coeff)
+			verifAssert(verifRefScalar("sign", sd, -1) >= 0, "C07.levelb.reduce.coeff_nonneg")
+		} else {
+			_, n := x.Reduce(&x)
+			verifAssert(n >= 0, "C04.levelb.reduce.count")
+			verifAssert(verifBigInv(&x.Coeff), "C16.dec.reduce.invariant")
+			sd := verifBigSnap(&x.Coeff)
+			verifAssert(verifRefScalar("sign", sd, -1) >= 0, "C07.levelb.reduce.coeff_nonneg")
+		}
+	case "newwithbigint":
+		var b BigInt
+		verifBigAny("b", &b, mh)
+		sb := verifBigSnap(&b)
+		d := NewWithBigInt(&b, int32(verifNondetInt("e", -2, 2)))
+		verifAssert(verifBigUnchanged(&b, sb), "C17.levelb.newwithbigint.argument_unchanged")
+		verifAssert(verifBigIs(&d.Coeff, "abs", sb, -1), "C17.levelb.newwithbigint.value")
+		verifAssert(d.Negative == (verifRefScalar("sign", sb, -1) < 0), "C17.levelb.newwithbigint.sign")
+		// the Decimal owns its coefficient: changing it afterwards does not reach the argument
+		d.Coeff.Add(&d.Coeff, bigOne)
+		verifAssert(verifBigUnchanged(&b, sb), "C17.levelb.newwithbigint.not_shared")
+	case "set":
+		var x, d Decimal
+		sx := coeff("x", &x)
+		verifBigAny("d", &d.Coeff, mh)
+		d.Set(&x)
+		verifAssert(verifBigIs(&d.Coeff, "set", sx, -1), "C06.big.decset.value")
+		verifAssert(verifBigUnchanged(&x.Coeff, sx), "C06.big.decset.operand")
 	}
 }
